@@ -392,6 +392,12 @@ class Body:
                 elif rv[0] == 'cfd':
                     base = self.canon(rv[1], depth + 1)
                     res = [base[0], list(base[1]) + list(proj)]
+                elif rv[0] == 'agg' and rv[1][0] == 'tuple' and proj and isinstance(proj[0], list) and proj[0][0] == 'f':
+                    # (a, &b).1 -> &b : match on a tuple of scrutinees
+                    i = proj[0][1]
+                    if i < len(rv[2]) and op_place(rv[2][i]) is not None:
+                        base = self.canon([op_place(rv[2][i])[0], list(op_place(rv[2][i])[1]) + list(proj[1:])], depth + 1)
+                        res = base
             elif sd and sd[1] == 'call':
                 # Deref::deref / DerefMut::deref_mut / Borrow / as_ref style wrappers are transparent
                 t = sd[2]
@@ -402,6 +408,8 @@ class Body:
                         # result is a reference to (a part of) *arg ; treat `*res` as `*arg`
                         base = self.canon(ap, depth + 1)
                         res = [base[0], list(base[1]) + list(proj)]
+        if depth < 12 and place_key(res) != key:
+            res = self.canon(res, depth + 1)   # the rewritten place may be rewritable again
         self._canon_cache[key] = res
         return res
 
